@@ -141,6 +141,15 @@ pub fn build(s: &Scn, pack_id: u16) -> Built {
         jbk::VendorId::from([1, 0, 0, 0]),
         Default::default(),
     );
+    let handles = populate(s, &mut creator);
+    Built { creator, handles }
+}
+
+/// Add the scenario's value stores, entry store and indexes to `creator`.
+pub fn populate(
+    s: &Scn,
+    creator: &mut jbk::creator::DirectoryPackCreator,
+) -> Vec<jbk::Bound<jbk::EntryIdx>> {
     let stores: Vec<jbk::creator::StoreHandle> = s
         .stores
         .iter()
@@ -201,7 +210,7 @@ pub fn build(s: &Scn, pack_id: u16) -> Built {
             jbk::EntryIdx::from(ix.offset).into(),
         );
     }
-    Built { creator, handles }
+    handles
 }
 
 pub fn run(s: &Scn) {
